@@ -104,6 +104,11 @@ if engine == "seq":
     rel = "internal/ctlog/ctlog.go"
     src = open(os.path.join(repo, rel)).read()
     new, n = re.subn(r'^([ \t]*)(\w+)\.poolMu\.Lock\(\)[ \t]*$', r'\1verifYield(&\2.poolMu)\n\1\2.poolMu.Lock()', src, flags=re.M)
+    # ... and after every close(x.done): the goroutines that wait for a pool may
+    # run before the closing goroutine goes on (the simulator's workers have one
+    # P, so without this the closer always finishes what follows first)
+    new, n2 = re.subn(r'^([ \t]*)(close\([\w.]+\.done\))[ \t]*$', r'\1\2\n\1verifYieldPoint()', new, flags=re.M)
+    n += n2
     if n > 0:
         p = os.path.join(gen, "ctlog.go")
         if not os.path.exists(p) or open(p).read() != new:
